@@ -1,6 +1,6 @@
 (* Proofs about Model/Args.v: the admission test (C07/C08) and keyword order (C14) *)
 From Coq Require Import Permutation.
-From RT Require Import Model.Args.
+From RT Require Import Model.Args Model.CallSpec.
 
 (* ---------- bytewise string order ---------- *)
 Lemma str_ltb_irrefl a : str_ltb a a = false.
@@ -166,18 +166,6 @@ Qed.
 (* ---------- C07 / C08: the admission test against the declarative reading of a declaration ---------- *)
 (* the spec: a value's class is its tag plus, for objects, the class name; a declaration admits a class
    when one of its (flat) variants is untyped or has that class *)
-Definition kind := (tag * string)%type.
-Definition kind_of (t : ty) : kind := (t_tag t, if tag_is OBJECT t then t_cls t else "").
-Definition kind_eqb (a b : kind) : bool := tag_eqb (fst a) (fst b) && String.eqb (snd a) (snd b).
-Definition possible (a : ty) : list kind := map kind_of (variants_of a).
-Definition decl_admits (d : ty) (k : kind) : bool :=
-  existsb (fun v => is_any_type v || kind_eqb (kind_of v) k) (variants_of d).
-Definition flat (t : ty) : bool := forallb (fun v => negb (is_union_type v)) (variants_of t).
-(* an argument whose type is fully known: no untyped / unknown / block anywhere *)
-Definition known (a : ty) : bool :=
-  negb (is_block_type a) &&
-  forallb (fun v => negb (is_any_type v || is_unknown_type v)) (variants_of a).
-
 Lemma tag_eqb_eq a b : tag_eqb a b = true <-> a = b.
 Proof. split; [|intros ->; destruct b; reflexivity]. destruct a, b; cbn; intros H; try discriminate; reflexivity. Qed.
 
@@ -505,4 +493,71 @@ Proof.
     - destruct (check_arg_type fixed_args p a); [|eexists; reflexivity].
       destruct i as [|i]; [cbn in Hi; lia|]. apply (IH r i); [cbn in *; lia|exact Hnd]. }
   destruct Hw as [k ->]. eexists; reflexivity.
+Qed.
+
+(* ---------- the call-level spec (Model/CallSpec.v) against the declarative rule ---------- *)
+Lemma nth_skipn_add {A} (d : A) : forall n j (l : list A), nth j (skipn n l) d = nth (n + j) l d.
+Proof. induction n as [|n IH]; intros j [|x r]; cbn; try reflexivity; [destruct j; reflexivity|apply IH]. Qed.
+
+Lemma skipn_has_default ptys n i :
+  forallb has_default (skipn n ptys) = true -> n <= i < List.length ptys -> has_default (nth i ptys zero_ty) = true.
+Proof.
+  revert n i. induction ptys as [|p ps IH]; intros n i H Hi; [cbn in Hi; lia|].
+  destruct n as [|n].
+  - cbn [skipn] in H. rewrite forallb_forall in H. apply H. apply nth_In. lia.
+  - destruct i as [|i]; [lia|]. cbn [skipn nth] in *. apply (IH n i H). cbn in Hi. lia.
+Qed.
+
+Lemma admitted_args_fit ptys : forall args i,
+  zip_forall arg_all_admitted ptys args = true -> i < List.length args -> i < List.length ptys ->
+  check_arg_type fixed_args (nth i ptys zero_ty) (nth i args zero_ty) = true.
+Proof.
+  induction ptys as [|p ps IH]; intros [|a r] i Hz Hi Hp; cbn in Hi, Hp; try lia.
+  cbn [zip_forall] in Hz. apply andb_true_iff in Hz as [Hpa Hr].
+  destruct i as [|i]; cbn [nth].
+  - unfold arg_all_admitted in Hpa. apply andb_true_iff in Hpa as [Hpa Hall]. apply andb_true_iff in Hpa as [Hf Hne].
+    apply check_arg_type_complete; [exact Hf| |exact Hall]. destruct (variants_of a); discriminate.
+  - apply IH; [exact Hr|lia|lia].
+Qed.
+
+Theorem certainly_fits_accepted cr ra ptys args :
+  certainly_fits ptys args = true -> pos_spec cr ra ptys args = COk.
+Proof.
+  unfold certainly_fits, arity_ok. intros H. apply andb_true_iff in H as [Har Hz].
+  apply andb_true_iff in Har as [Hlen Hdef]. apply Nat.leb_le in Hlen.
+  apply positional_accepts; [exact Hlen| |].
+  - intros i Hi. apply admitted_args_fit; [exact Hz|exact Hi|lia].
+  - intros i Hi. eapply skipn_has_default; eassumption.
+Qed.
+
+Lemma rejected_arg_errors ptys : forall args,
+  zip_exists arg_all_rejected ptys args = true -> exists k, pos_walk true ptys args = CErr k.
+Proof.
+  induction ptys as [|p ps IH]; intros [|a r] H; cbn [zip_exists] in H; try discriminate.
+  cbn [pos_walk]. destruct (check_arg_type fixed_args p a) eqn:Ec; [|eexists; reflexivity].
+  apply orb_true_iff in H as [H|H]; [|apply IH; exact H].
+  exfalso. unfold arg_all_rejected in H.
+  apply andb_true_iff in H as [H Hall]. apply andb_true_iff in H as [H Hne]. apply andb_true_iff in H as [H Hk].
+  apply andb_true_iff in H as [Hfd Hfa].
+  rewrite (check_arg_type_sound p a Hfd Hfa Hk) in Ec; [discriminate| |exact Hall].
+  destruct (variants_of a); [discriminate|discriminate].
+Qed.
+
+Theorem certainly_fails_reported ptys args :
+  certainly_fails ptys args = true -> exists k, pos_spec true false ptys args = CErr k.
+Proof.
+  unfold certainly_fails. intros H. apply orb_true_iff in H as [H|H].
+  - apply negb_true_iff in H. unfold arity_ok in H. apply andb_false_iff in H as [H|H].
+    + apply positional_too_many. apply Nat.leb_gt in H. exact H.
+    + destruct (Nat.leb (List.length args) (List.length ptys)) eqn:El.
+      * apply Nat.leb_le in El. apply positional_too_few.
+        assert (Hex : exists x, In x (skipn (List.length args) ptys) /\ has_default x = false).
+        { clear -H. induction (skipn (List.length args) ptys) as [|x r IH]; [discriminate|].
+          cbn [forallb] in H. apply andb_false_iff in H as [H|H]; [exists x; split; [left; reflexivity|exact H]|].
+          destruct (IH H) as (y & Hy & Hd). exists y. split; [right; exact Hy|exact Hd]. }
+        destruct Hex as (x & Hx & Hd). apply (In_nth _ _ zero_ty) in Hx as (j & Hj & Hnth).
+        rewrite skipn_length in Hj. exists (List.length args + j). split; [lia|].
+        rewrite <- Hd, <- Hnth. rewrite nth_skipn_add. reflexivity.
+      * apply positional_too_many. apply Nat.leb_gt in El. exact El.
+  - unfold pos_spec. destruct (rejected_arg_errors ptys args H) as [k ->]. eexists; reflexivity.
 Qed.
